@@ -216,6 +216,53 @@ fn sample_of(case: &Case, hist: &History) -> serde_json::Value {
     })
 }
 
+/// every CHECKED_MOD-th worker process runs the build with fastrace's debug assertions compiled in
+pub const CHECKED_MOD: u64 = 4;
+
+pub fn checked_exe() -> Option<std::path::PathBuf> {
+    let p = std::path::PathBuf::from(format!("{}/target-checked/release/dst", verif_dir()));
+    if p.exists() {
+        Some(p)
+    } else {
+        None
+    }
+}
+
+pub fn am_checked() -> bool {
+    std::env::current_exe().map(|p| p.to_string_lossy().contains("/target-checked/")).unwrap_or(false)
+}
+
+/// the executable that must run this case: the one it was found with
+pub fn exe_for(case: &Case) -> Option<std::path::PathBuf> {
+    if case.checked == am_checked() {
+        return std::env::current_exe().ok();
+    }
+    if case.checked {
+        checked_exe()
+    } else {
+        let p = std::path::PathBuf::from(format!("{}/target/release/dst", verif_dir()));
+        if p.exists() {
+            Some(p)
+        } else {
+            None
+        }
+    }
+}
+
+/// which seeds get strictly nested programs: those of the checked workers, and the seeds every
+/// worker runs for the determinism comparison
+pub fn strict_for(i: u64, stride: u64, checked_mod: u64) -> bool {
+    checked_mod > 0 && (i % DET_EVERY == 7 || (i % stride) % checked_mod == checked_mod - 1)
+}
+
+pub fn case_for(prop: &str, base: u64, i: u64, thorough: bool, stride: u64, checked_mod: u64) -> Case {
+    gen::set_strict(strict_for(i, stride, checked_mod));
+    let mut case = gen::generate_tier(prop, base + i, thorough);
+    gen::set_strict(false);
+    case.checked = checked_mod > 0 && i % DET_EVERY != 7 && (i % stride) % checked_mod == checked_mod - 1;
+    case
+}
+
 pub fn worker_main(args: &[String]) -> i32 {
     let get = |n: &str| crate::arg(args, n);
     let prop = get("--prop").expect("--prop").to_string();
@@ -230,6 +277,7 @@ pub fn worker_main(args: &[String]) -> i32 {
     }
     let deadline: Option<f64> = get("--max-seconds").and_then(|s| s.parse().ok());
     let thorough = get("--tier") == Some("thorough");
+    let checked_mod: u64 = get("--checked-mod").and_then(|s| s.parse().ok()).unwrap_or(0);
     let t0 = Instant::now();
     let mut res = WorkerResult::default();
     // resume: a previous incarnation of this worker may have left partial results
@@ -253,7 +301,8 @@ pub fn worker_main(args: &[String]) -> i32 {
         if i % DET_EVERY == 7 && (i % stride != offset) {
             // determinism: every worker process (pinned to a different core) also runs these
             // seeds; the driver compares the event-log hashes across processes
-            let case = gen::generate_tier(&prop, base + i, thorough);
+            let mut case = case_for(&prop, base, i, thorough, stride, checked_mod);
+            case.checked = am_checked();
             std::fs::write(&marker, format!("{}", i)).ok();
             let hist = run_case(&case);
             if hist.out.hard.is_none() {
@@ -275,7 +324,9 @@ pub fn worker_main(args: &[String]) -> i32 {
         }
         let seed = base + i;
         std::fs::write(&marker, format!("{}", i)).ok();
-        let case = gen::generate_tier(&prop, seed, thorough);
+        let mut case = case_for(&prop, base, i, thorough, stride, checked_mod);
+        case.checked = am_checked();
+        let _ = seed;
         let (hist, v) = eval_case(&case);
         res.evaluated += 1;
         res.last_seed = i;
@@ -416,10 +467,15 @@ pub fn drive_main(args: &[String]) -> i32 {
     let tmp = format!("{}/target/run-{}-{}", verif_dir(), prop, std::process::id());
     std::fs::create_dir_all(&tmp).expect("mkdir run dir");
     let exe = std::env::current_exe().unwrap();
+    let started_at = std::time::SystemTime::now();
+    let cexe = checked_exe();
+    let checked_mod: u64 = if cexe.is_some() && workers >= CHECKED_MOD { CHECKED_MOD } else { 0 };
+    let is_checked_worker = |k: u64| checked_mod > 0 && k % checked_mod == checked_mod - 1;
     let t0 = Instant::now();
     let spawn_worker = |k: u64, from: u64| {
-        let mut c = Command::new(&exe);
+        let mut c = Command::new(if is_checked_worker(k) { cexe.as_ref().unwrap() } else { &exe });
         c.arg("worker")
+            .arg("--checked-mod").arg(checked_mod.to_string())
             .arg("--prop").arg(&prop)
             .arg("--tier").arg(&tier)
             .arg("--base").arg(base.to_string())
@@ -489,10 +545,14 @@ pub fn drive_main(args: &[String]) -> i32 {
     let mut det: std::collections::HashMap<u64, Vec<u64>> = std::collections::HashMap::new();
     let mut triggers: HashSet<u64> = HashSet::new();
     let mut states: HashSet<u64> = HashSet::new();
+    let mut checked_evals = 0u64;
     for k in 0..workers {
         let p = format!("{}/w{}.json", tmp, k);
         match std::fs::read_to_string(&p).ok().and_then(|s| serde_json::from_str::<WorkerResult>(&s).ok()) {
             Some(r) => {
+                if is_checked_worker(k) {
+                    checked_evals += r.evaluated;
+                }
                 total.evaluated += r.evaluated;
                 total.steps += r.steps;
                 total.switches += r.switches;
@@ -542,7 +602,8 @@ pub fn drive_main(args: &[String]) -> i32 {
     }
     // process aborts are C07 violations attributed to the seed in the marker file
     for (k, cur, st) in aborted.iter().take(1) {
-        let case = gen::generate_tier(&prop, base + cur, tier == "thorough");
+        let mut case = case_for(&prop, base, *cur, tier == "thorough", workers, checked_mod);
+        case.checked = is_checked_worker(*k);
         let viol = Violation {
             prop: "C07".into(),
             clause: "C07.abort".into(),
@@ -626,7 +687,8 @@ pub fn drive_main(args: &[String]) -> i32 {
             for e in rd.flatten() {
                 let p = e.path();
                 let ps = p.to_string_lossy().to_string();
-                let fresh = e.metadata().ok().and_then(|m| m.modified().ok()).and_then(|m| m.elapsed().ok()).map(|d| d.as_secs_f64() <= wall + 5.0).unwrap_or(false);
+                // written after this run started (another run's files are none of this run's business)
+                let fresh = e.metadata().ok().and_then(|m| m.modified().ok()).map(|m| m >= started_at).unwrap_or(false);
                 let mine = p.file_name().map(|n| n.to_string_lossy().starts_with(&format!("{}-", prop)) || n.to_string_lossy().starts_with("C07-")).unwrap_or(false);
                 if fresh && mine && !keep.contains(&ps) {
                     std::fs::remove_file(&p).ok();
@@ -666,6 +728,11 @@ pub fn drive_main(args: &[String]) -> i32 {
                 "seeds_compared": det_seeds,
                 "runs_compared": det_runs,
                 "mismatches": det_mismatch.len(),
+            },
+            "checked_build": {
+                "what": "the same harness built with fastrace's and fastrace-futures' debug assertions and overflow checks compiled in (the library's own invariants are checked while each run proceeds); its programs are strictly nested (guards released in reverse order of creation, the library's stated precondition)",
+                "worker_processes": (0..workers).filter(|k| is_checked_worker(*k)).count(),
+                "evaluations": checked_evals,
             },
             "process_aborts": aborted.len(),
             "condemned_runs": hard_exits,
@@ -728,6 +795,16 @@ pub fn drive_main(args: &[String]) -> i32 {
 pub fn replay_main(path: &str) -> i32 {
     let s = std::fs::read_to_string(path).expect("read replay file");
     let rf: ReplayFile = serde_json::from_str(&s).expect("parse replay file");
+    if rf.case.checked != am_checked() {
+        // found with the other build: replay it there
+        return match exe_for(&rf.case) {
+            Some(exe) => Command::new(exe).arg("replay").arg(path).status().ok().and_then(|s| s.code()).unwrap_or(2),
+            None => {
+                eprintln!("HARNESS ERROR: this replay needs the build {} debug assertions, which is not built (run.sh builds both)", if rf.case.checked { "with" } else { "without" });
+                2
+            }
+        };
+    }
     if rf.violation.clause == "C07.abort" {
         // the run kills its process: replay it in a child and look at how the child ended
         let tmpf = format!("{}/target/replay-{}.json", verif_dir(), std::process::id());
